@@ -127,7 +127,7 @@ func cmdCheck(args []string) int {
 		}
 		return reportLoadFailure(*prop, *verifDir, *evidence, *tier, seed, err, t0)
 	}
-	timeout := 10
+	timeout := 20
 	if *tier == "thorough" {
 		timeout = 60
 	}
@@ -160,8 +160,15 @@ func cmdCheck(args []string) int {
 	var wg sync.WaitGroup
 	// VC generation is sequential (shared engine caches); solving is parallel.
 	for _, k := range keys {
+		tg := time.Now()
 		r := e.verifyFunction(k, e.db.Contracts[k])
+		if os.Getenv("GVERIF_TIMING") != "" {
+			fmt.Fprintf(os.Stderr, "gen %6.2fs %5d obls %7d lines  %s\n", time.Since(tg).Seconds(), len(r.Obls), r.Lines, k)
+		}
 		results = append(results, r)
+	}
+	if os.Getenv("GVERIF_TIMING") != "" {
+		fmt.Fprintf(os.Stderr, "generation done at %.1fs\n", time.Since(t0).Seconds())
 	}
 	var obls []*Obligation
 	for _, r := range results {
@@ -199,6 +206,12 @@ func cmdCheck(args []string) int {
 		go func(i int, o *Obligation) {
 			defer wg.Done()
 			defer func() { <-sem }()
+			tq := time.Now()
+			defer func() {
+				if os.Getenv("GVERIF_TIMING") != "" && time.Since(tq).Seconds() > 0.5 {
+					fmt.Fprintf(os.Stderr, "obl %6.2fs %s %s\n", time.Since(tq).Seconds(), o.Expect, o.Name)
+				}
+			}()
 			q := ""
 			if o.RawQuery != "" {
 				q = o.RawQuery
@@ -217,21 +230,35 @@ func cmdCheck(args []string) int {
 			if o.Expect == "notunsat" {
 				fin = solveOnce(q, workDir, name, 2)
 			} else {
-				fin, all = solve(q, workDir, name, timeout, *tier == "thorough")
-				if fin.Status != "unsat" && fin.Status != "sat" && len(o.Cases) > 1 {
-					// fallback: one query per path into the merged block (all must be unsat)
-					allUnsat := true
+				caseSplit := func(tmo int) bool {
+					// one query per path into the merged block (all must be unsat)
 					var secs float64
 					for ci, c := range o.Cases {
-						r, _ := solve(o.queryWith(c), workDir, fmt.Sprintf("%s_case%d", name, ci), timeout, false)
+						r, _ := solve(o.queryWith(c), workDir, fmt.Sprintf("%s_case%d", name, ci), tmo, false)
 						secs += r.Secs
 						if r.Status != "unsat" {
-							allUnsat = false
-							break
+							return false
 						}
 					}
-					if allUnsat {
-						fin = SolverResult{Status: "unsat", Solver: fmt.Sprintf("case-split(%d)", len(o.Cases)), Secs: secs}
+					fin = SolverResult{Status: "unsat", Solver: fmt.Sprintf("case-split(%d)", len(o.Cases)), Secs: secs}
+					return true
+				}
+				if *tier == "thorough" {
+					fin, all = solve(q, workDir, name, timeout, true)
+					if fin.Status != "unsat" && fin.Status != "sat" && fin.Status != "disagree" && len(o.Cases) > 1 {
+						caseSplit(timeout)
+					}
+				} else {
+					// quick: a short attempt on the whole query, then the per-path queries (merged paths are what makes a
+					// query slow), and only then the long race on the whole query
+					fin, all = solve(q, workDir, name, 3, false)
+					if fin.Status != "unsat" && fin.Status != "sat" {
+						if !(len(o.Cases) > 1 && caseSplit(6)) {
+							fin, all = solve(q, workDir, name, timeout, false)
+							if fin.Status != "unsat" && fin.Status != "sat" && len(o.Cases) > 1 {
+								caseSplit(timeout)
+							}
+						}
 					}
 				}
 			}
